@@ -58,4 +58,6 @@ edit rename-ptr      $D/name.go 'ptr' 'hops'
 edit rename-pop-m    $D/msg.go $'func PopEDNS0(m *Msg) Resource {\n\tend := len(m.Additionals) - 1\n\tfor i := end; i >= 0; i-- {\n\t\tr := m.Additionals[i]\n\t\tif r.Hdr().Type == TypeOPT {\n\t\t\tm.Additionals[i] = m.Additionals[end]\n\t\t\tm.Additionals[end] = nil\n\t\t\tm.Additionals = m.Additionals[:end]' $'func PopEDNS0(msg *Msg) Resource {\n\tm := msg\n\tend := len(m.Additionals) - 1\n\tfor i := end; i >= 0; i-- {\n\t\tr := m.Additionals[i]\n\t\tif r.Hdr().Type == TypeOPT {\n\t\t\tlast := m.Additionals[end]\n\t\t\tm.Additionals[i] = last\n\t\t\tm.Additionals[end] = nil\n\t\t\tm.Additionals = m.Additionals[:end]'
 edit loadca-var      $R/tls.go 'caCertPool := x509.NewCertPool()' 'p := x509.NewCertPool(); caCertPool := p'
 edit quic-live-var   $T/quic_transport.go $'\t\tif !ctxIsDone(t.c.Context()) {' $'\t\tcc := t.c\n\t\tif !ctxIsDone(cc.Context()) {'
+edit rename-recv     $T/pipeline_conn.go $'func (c *pipelineConn) Status() (s connpool.ConnStatus) {\n\tc.m.RLock()\n\tdefer c.m.RUnlock()\n\n\ts.Closed = c.closed\n\ts.Available = c.nextQid+c.reserved <= 65535' $'func (pc *pipelineConn) Status() (s connpool.ConnStatus) {\n\tpc.m.RLock()\n\tdefer pc.m.RUnlock()\n\n\ts.Closed = pc.closed\n\ts.Available = pc.nextQid+pc.reserved <= 65535'
+edit rename-addr-par $R/router.go $'func (r *router) packReq(q *dnsmsg.Question, remoteAddr netip.Addr) (pool.Buffer, error) {' $'func (r *router) packReq(q *dnsmsg.Question, clientIP netip.Addr) (pool.Buffer, error) {\n\tremoteAddr := clientIP'
 rm -rf $out
